@@ -34,7 +34,7 @@ def molecularAngle (u m : α) : α := (((u * ((2 : Nat) : α)) - ((1 : Nat) : α
 end steps
 
 /-- AtomicPerturbation: `random.sample(range(sampleLo, sampleHi ndim), max_atoms)` -/
-def sampleLo : Nat := 1
+def sampleLo : Nat := 0
 def sampleHi (ndim : Nat) : Nat := (ndim / 3)
 
 section rot
